@@ -20,13 +20,18 @@ import (
 const addrA, addrB = "127.0.0.1:1001", "127.0.0.1:1002"
 
 type params struct {
-	op     string // tell | ask | kill | poison | watch | unwatch | ping | pipe-ok | pipe-err | pipe-remote-forwarder | once | loop
+	op     string // tell | ask | kill | poison | watch | unwatch | ping | pipe-ok | pipe-err | pipe-remote-forwarder | once | loop | watch2 | unwatch2a | unwatch2b
 	remote bool
 	codec  bool
+	pre    string // "" | bad-tell: before the operation the caller Tells the target a message its registered writer rejects
 }
 
 func (p params) name() string {
-	return fmt.Sprintf("%s/remote=%v/codec=%v", p.op, p.remote, p.codec)
+	n := fmt.Sprintf("%s/remote=%v/codec=%v", p.op, p.remote, p.codec)
+	if p.pre != "" {
+		n += "/after=" + p.pre
+	}
+	return n
 }
 
 func text(m any) string {
@@ -78,6 +83,9 @@ func scenario(p params, bounds []int) *vexp.Scenario {
 			var killer string
 			tw.SpawnRoot(&vsys.Script{Name: "target",
 				OnOther: func(a *vsys.Act, ctx vivid.ActorContext, m any) {
+					if _, bad := m.(*vcodec.ShortTagMsg); bad {
+						return // only a local target can see it at all; not part of the comparison
+					}
 					s := text(m)
 					targetSaw = append(targetSaw, s)
 					switch {
@@ -114,6 +122,8 @@ func scenario(p params, bounds []int) *vexp.Scenario {
 			wa.SpawnRoot(&vsys.Script{Name: "caller",
 				OnMsg: func(a *vsys.Act, ctx vivid.ActorContext, m vsys.Msg) {
 					switch m.ID {
+					case "bad-tell":
+						ctx.Tell(target, &vcodec.ShortTagMsg{Tag: strings.Repeat("t", 300)})
 					case "tell":
 						ctx.Tell(target, payload("hello"))
 					case "ask":
@@ -152,7 +162,23 @@ func scenario(p params, bounds []int) *vexp.Scenario {
 				OnKilled: func(a *vsys.Act, ctx vivid.ActorContext, m *vivid.OnKilled) {
 					callerSaw = append(callerSaw, "OnKilled:"+m.Ref.GetAddress()+m.Ref.GetPath())
 				}})
+			// a second watcher with the SAME path on the other system
+			var callerSawB []string
+			targetFromB, _ := wb.Sys.CreateRef(taddr, "/target")
+			wb.SpawnRoot(&vsys.Script{Name: "caller",
+				OnMsg: func(a *vsys.Act, ctx vivid.ActorContext, m vsys.Msg) {
+					switch m.ID {
+					case "watch":
+						ctx.Watch(targetFromB)
+					case "unwatch":
+						ctx.Unwatch(targetFromB)
+					}
+				},
+				OnKilled: func(a *vsys.Act, ctx vivid.ActorContext, m *vivid.OnKilled) {
+					callerSawB = append(callerSawB, "OnKilled:"+m.Ref.GetAddress()+m.Ref.GetPath())
+				}})
 			vrt.QuiesceNoTimers()
+			doB := func(id string) { wb.Sys.Tell(wb.Ref("/caller"), vsys.Msg{ID: id}) }
 			caller := wa.Ref("/caller")
 			do := func(id string) { wa.Sys.Tell(caller, vsys.Msg{ID: id}) }
 			settle := func(d time.Duration) {
@@ -174,7 +200,36 @@ func scenario(p params, bounds []int) *vexp.Scenario {
 			if p.remote {
 				where = "remote"
 			}
+			if p.pre == "bad-tell" {
+				do("bad-tell")
+				settle(time.Second)
+			}
 			switch p.op {
+			case "watch2", "unwatch2a", "unwatch2b":
+				do("watch")
+				settle(time.Second)
+				doB("watch")
+				settle(time.Second)
+				if p.op == "unwatch2a" {
+					do("unwatch")
+				}
+				if p.op == "unwatch2b" {
+					doB("unwatch")
+				}
+				settle(time.Second)
+				tw.Sys.Kill(tw.Ref("/target"), false, "driver")
+				settle(time.Second)
+				want := "OnKilled:" + taddr + "/target"
+				wantA, wantB := want, want
+				if p.op == "unwatch2a" {
+					wantA = ""
+				}
+				if p.op == "unwatch2b" {
+					wantB = ""
+				}
+				if strings.Join(callerSaw, ",") != wantA || strings.Join(callerSawB, ",") != wantB {
+					x.Fail("every-watcher-notified", "two watchers with the same path on different systems (%s/caller and %s/caller), target on %s, %s: the first saw %v (expected [%s]), the second saw %v (expected [%s])", addrA, addrB, taddr, p.op, callerSaw, wantA, callerSawB, wantB)
+				}
 			case "tell":
 				do("tell")
 				settle(time.Second)
@@ -249,11 +304,14 @@ func scenario(p params, bounds []int) *vexp.Scenario {
 			for _, w := range []*vsys.World{wa, wb} {
 				for _, pb := range w.Pubs {
 					if pb.Type == "RemotingMessageDecodeFailedEvent" || pb.Type == "RemotingMessageSendFailedEvent" {
+						if p.pre == "bad-tell" && strings.Contains(fmt.Sprintf("%+v", pb.Event), "ShortTagMsg") {
+							continue // the one message that cannot be encoded
+						}
 						x.Fail("no-codec-failure", "%s: %v", pb.Type, pb.Event)
 					}
 				}
 			}
-			x.Outcome(fmt.Sprintf("%v|%v|%v", targetSaw, callerSaw, fwdSaw))
+			x.Outcome(fmt.Sprintf("%v|%v|%v|%v", targetSaw, callerSaw, fwdSaw, callerSawB))
 			x.Logf("target %v caller %v fwd %v", targetSaw, callerSaw, fwdSaw)
 			wa.Sys.Stop()
 			wb.Sys.Stop()
@@ -271,8 +329,19 @@ func build(tier string) []*vexp.Scenario {
 	for _, op := range []string{"tell", "ask", "kill", "poison", "watch", "unwatch", "ping", "pipe-ok", "pipe-err", "pipe-remote-forwarder", "once", "loop"} {
 		for _, remote := range []bool{false, true} {
 			for _, codec := range []bool{false, true} {
-				out = append(out, scenario(params{op, remote, codec}, bounds))
+				out = append(out, scenario(params{op: op, remote: remote, codec: codec}, bounds))
 			}
+		}
+	}
+	for _, op := range []string{"watch2", "unwatch2a", "unwatch2b"} {
+		for _, remote := range []bool{false, true} {
+			out = append(out, scenario(params{op: op, remote: remote}, bounds))
+		}
+	}
+	// the same operations right after one message was (legitimately) rejected by its writer
+	for _, op := range []string{"tell", "ask", "kill", "watch", "ping", "pipe-ok", "pipe-remote-forwarder", "once"} {
+		for _, remote := range []bool{false, true} {
+			out = append(out, scenario(params{op: op, remote: remote, pre: "bad-tell"}, []int{0}))
 		}
 	}
 	return out
